@@ -237,8 +237,9 @@ def renderNum (p : Prim) (n : Num) : Lit :=
   if p.isFloat then
     if n.isIntTok then .flt n                       -- `5` → `5.0`
     else
+      -- (an exponent form is a float literal as it stands; `.0` is appended only to a text with neither `.` nor `e`)
       let t := floatText n
-      if t.contains '.' then .flt n else .bad (t ++ ".0".toList)
+      if t.contains '.' || t.contains 'e' || t.contains 'E' then .flt n else .bad (t ++ ".0".toList)
   else if n.isIntTok && decide (i64Min ≤ n.m) && decide (n.m ≤ i64Max) then renderInteger p n.m
   else if n.isIntTok && decide (0 ≤ n.m) && decide (n.m ≤ u64Max) then renderUnsigned p n.m
   else if n.isIntTok then .bad (if n.m < 0 then '-' :: natDigits n.m.natAbs else natDigits n.m.natAbs)
